@@ -186,6 +186,28 @@ func runFunction(vc *VC, u *Universe, pi *PkgInfo, fc *FuncContract, fn *ssa.Fun
 
 	x.inlineStack = []*ssa.Function{fn}
 	x.execBody(fr, st)
+	// every declared call-site assertion must have been evaluated at least once: in partial mode a
+	// path is abandoned where the engine cannot go on, and an assertion whose call (or whose names)
+	// can no longer be resolved would otherwise vanish silently
+	for _, cs := range fc.CallSites {
+		if cs.IsUse {
+			continue
+		}
+		tag := cs.Tag
+		if tag == "" {
+			tag = cs.Callee
+		}
+		found := false
+		for _, o := range vc.obls {
+			if strings.HasPrefix(o.Name, vc.fnName+"#callsite."+tag+".") {
+				found = true
+			}
+		}
+		if !found {
+			o := vc.oblige("callsite."+tag, TFalse, x.posOf(fn, fn.Pos()), fmt.Sprintf("call-site assertion [%s] at %s was never evaluated: the call is gone, unreachable for the engine, or the assertion no longer resolves there: %s", tag, cs.Callee, cs.Clause.Src))
+			o.Clause = cs.Clause.Src
+		}
+	}
 
 	if len(fr.rets) > 0 {
 		var resT types.Type = fn.Signature.Results()
@@ -277,7 +299,7 @@ func runFunction(vc *VC, u *Universe, pi *PkgInfo, fc *FuncContract, fn *ssa.Fun
 		for _, o := range vc.obls {
 			drop := false
 			for _, nc := range fc.NotClaimed {
-				if o.Kind == nc[0] && strings.Contains(sourceLine(o.Pos.String()), nc[1]) {
+				if (o.Kind == nc[0] || strings.HasPrefix(o.Kind, nc[0]+"@")) && strings.Contains(sourceLine(o.Pos.String()), nc[1]) {
 					drop = true
 					x.note(fmt.Sprintf("abstracted (not claimed): obligation %s (%s, %s) is left undecided: %s", o.Name, o.Desc, o.Pos, nc[2]))
 				}
